@@ -379,3 +379,82 @@ def forward_substitute_temps(tree: ast.Module) -> int:
                 break
         total += _strip_bool_tests(fn)
     return total
+
+
+# --------------------------------------------------------------------------
+# copy coalescing:  a = x  (x dead afterwards, a defined only here)  ->  rename x to a
+# --------------------------------------------------------------------------
+
+def _ordered_names(fn: ast.AST) -> List[ast.Name]:
+    out: List[ast.Name] = []
+
+    def rec(n: ast.AST):
+        if isinstance(n, ast.Name):
+            out.append(n)
+            return
+        if isinstance(n, (ast.Assign, ast.AnnAssign, ast.AugAssign)):
+            # evaluation order: value first, then targets
+            v = getattr(n, "value", None)
+            if v is not None:
+                rec(v)
+            for t in (n.targets if isinstance(n, ast.Assign) else [n.target]):
+                rec(t)
+            return
+        for c in ast.iter_child_nodes(n):
+            rec(c)
+
+    for st in fn.body:
+        rec(st)
+    return out
+
+
+def coalesce_copies(tree: ast.Module) -> int:
+    total = 0
+    for fn in ast.walk(tree):
+        if not isinstance(fn, (ast.FunctionDef, ast.AsyncFunctionDef)):
+            continue
+        for _ in range(8):
+            loads, stores, banned = _name_counts(fn)
+            order = _ordered_names(fn)
+            pos = {id(n): i for i, n in enumerate(order)}
+            done = False
+            for idx, st in enumerate(fn.body):
+                if not (isinstance(st, ast.Assign) and len(st.targets) == 1):
+                    continue
+                tg, val = st.targets[0], st.value
+                if isinstance(tg, ast.Name) and isinstance(val, ast.Name):
+                    pairs = [(tg, val)]
+                elif isinstance(tg, (ast.Tuple, ast.List)) and isinstance(val, (ast.Tuple, ast.List)) and len(tg.elts) == len(val.elts) and all(isinstance(e, ast.Name) for e in list(tg.elts) + list(val.elts)):
+                    pairs = list(zip(tg.elts, val.elts))
+                else:
+                    continue
+                lhs = [a.id for a, _x in pairs]
+                rhs = [x.id for _a, x in pairs]
+                if len(set(lhs)) != len(lhs) or len(set(rhs)) != len(rhs) or set(lhs) & set(rhs):
+                    continue
+                ok = True
+                last_here = max(pos[id(n)] for n in ast.walk(st) if isinstance(n, ast.Name))
+                for a, x in pairs:
+                    if a.id in banned or x.id in banned or stores.get(a.id, 0) != 1 or stores.get(x.id, 0) < 1:
+                        ok = False
+                        break
+                    # a is not read before this statement, x is neither read nor written after it
+                    if any(n.id == a.id and pos[id(n)] < pos[id(a)] for n in order):
+                        ok = False
+                        break
+                    if any(n.id == x.id and pos[id(n)] > last_here for n in order):
+                        ok = False
+                        break
+                if not ok:
+                    continue
+                ren = {x.id: a.id for a, x in pairs}
+                del fn.body[idx]
+                for n in ast.walk(fn):
+                    if isinstance(n, ast.Name) and n.id in ren:
+                        n.id = ren[n.id]
+                total += 1
+                done = True
+                break
+            if not done:
+                break
+    return total
